@@ -1200,6 +1200,18 @@ class RoutingParameter:
     field: str
     path_template: str
 
+    @property
+    def disambiguated_field(self) -> str:
+        """The Python attribute path of ``field`` on the request object.
+
+        Each segment that is a reserved name carries the trailing underscore
+        that the generated message classes give to such fields.
+        """
+        return ".".join(
+            segment + "_" if segment in utils.RESERVED_NAMES else segment
+            for segment in self.field.split(".")
+        )
+
     def _split_into_segments(self, path_template):
         segments = path_template.split("/")
         named_segment_ids = [i for i, x in enumerate(segments) if "{" in x or "}" in x]
